@@ -35,7 +35,8 @@ _r_enum_dotdotdot = re.compile(r"__dotdotdot\d+__$")
 _r_partial_array = re.compile(r"\[\s*\.\.\.\s*\]")
 _r_words = re.compile(r"\w+|\S")
 _parser_cache = None
-_r_int_literal = re.compile(r"-?0?x?[0-9a-f]+[lu]*$", re.IGNORECASE)
+_r_int_literal = re.compile(r"-?(0x[0-9a-f]+|0[0-7]*|[1-9][0-9]*)[lu]*$",
+                            re.IGNORECASE)
 _simple_escapes = {'n': 10, 't': 9, 'r': 13, 'a': 7, 'b': 8, 'f': 12, 'v': 11,
                    '\\': 92, "'": 39, '"': 34, '?': 63, '0': 0, '1': 1,
                    '2': 2, '3': 3, '4': 4, '5': 5, '6': 6, '7': 7}
@@ -954,6 +955,8 @@ class Parser:
                        "simple numeric constant" % exprnode.coord.line)
 
     def _c_div(self, a, b):
+        if b == 0:
+            raise CDefError("division by zero in a constant expression")
         result = a // b
         if ((a < 0) ^ (b < 0)) and (a % b) != 0:
             result += 1
